@@ -557,6 +557,14 @@ Fixpoint find_px (l : list pyxml) (py : string) : option pyxml :=
 (* info() calls the xs:any member __ANY__; the constructor and the export table call it anytypeobjs_ *)
 Definition rename_any (n : string) : string := if String.eqb n "__ANY__" then "anytypeobjs_" else n.
 
+(* GeneratedsSuper.__eq__ compares the instance dictionaries pairwise after dropping a fixed set of attribute names
+   (translators/tr_eq.py extracts the set).  The model's value equality obj_eqb compares every field of the model, i.e.
+   every member attribute; it is the code's equality as long as no member attribute is among the dropped names. *)
+Definition drop_excluded {A} (excluded : list string) (fs : list (string * A)) : list (string * A) :=
+  filter (fun nv => negb (mem (fst nv) excluded)) fs.
+Definition eq_sees_all_members (excluded : list string) (M : mtables) : bool :=
+  forallb (fun k => forallb (fun m => negb (mem (rename_any (ms_name m)) excluded)) (mc_specs k)) M.
+
 (* one member of one class against the schema: type and list nature as declared (effective occurrence), the
    required flag as the declaration itself says (use / own minOccurs), which outside an xs:choice is also the
    effective requirement *)
